@@ -1,17 +1,18 @@
 #!/bin/sh
 # Runs the thorough tier of every claimed check, one after the other.
-cd /verif || exit 2
+cd "$(dirname "$0")/.." || exit 2
+V="$(pwd)"; mkdir -p "$V/work"
 SUF="${VERIF_SEED:+-s$VERIF_SEED}"
-LOG=/verif/work/thorough$SUF.log
+LOG=$V/work/thorough$SUF.log
 : > "$LOG"
 for P in C01 C02 C03 C04 C05 C06 C07 C08 C09 C10 C11 C12 C14 C15 C16 C18 C19; do
     START=$(date +%s)
-    ./check "$P" thorough > "/verif/work/thorough$SUF-$P.out" 2>&1
+    ./check "$P" thorough > "$V/work/thorough$SUF-$P.out" 2>&1
     CODE=$?
     END=$(date +%s)
-    echo "$P exit $CODE $((END-START))s: $(grep -E "^C[0-9]+:" /verif/work/thorough$SUF-$P.out | tail -1)" >> "$LOG"
-    grep -E "^VIOLATION" "/verif/work/thorough$SUF-$P.out" >> "$LOG"
-    mkdir -p /verif/work/evidence-thorough$SUF
-    cp "/verif/evidence/$P.json" "/verif/work/evidence-thorough$SUF/$P.json" 2>/dev/null
+    echo "$P exit $CODE $((END-START))s: $(grep -E "^C[0-9]+:" $V/work/thorough$SUF-$P.out | tail -1)" >> "$LOG"
+    grep -E "^VIOLATION" "$V/work/thorough$SUF-$P.out" >> "$LOG"
+    mkdir -p $V/work/evidence-thorough$SUF
+    cp "$V/evidence/$P.json" "$V/work/evidence-thorough$SUF/$P.json" 2>/dev/null
 done
 echo DONE >> "$LOG"
